@@ -97,6 +97,20 @@ def callgraph_layout(second_call=False):
     }
 
 
+def resolved_icall_layout():
+    """F = {b0 (indirect call that the analysis resolved to G), b1, b1r}; G = {b2 entry, b3 ret}"""
+    return {
+        "sections": [{"name": ".text", "exec": True, "blocks": [
+            {"id": "b0", "kind": "code", "atoms": ["o", "rcall:s2"], "syms": ["s0"], "func": "F", "entry": True},
+            {"id": "b1", "kind": "code", "atoms": ["o", "o"], "syms": ["s1"], "func": "F"},
+            {"id": "b1r", "kind": "code", "atoms": ["o", "ret"], "syms": ["s1r"], "func": "F"},
+            {"id": "b2", "kind": "code", "atoms": ["o", "o"], "syms": ["s2"], "func": "G", "entry": True},
+            {"id": "b3", "kind": "code", "atoms": ["o", "ret"], "syms": ["s3"], "func": "G"},
+        ]}],
+        "ext": ["ext1"], "mods": [], "annots": [],
+    }
+
+
 def two_entries_layout():
     """one function over three blocks with two entry blocks (b0 and b2)"""
     spec = text_layout("o", annots=False)
@@ -362,6 +376,11 @@ def shapes(tier):
         spec["sections"][1]["uninit_tail"] = True
         spec["mods"] = copy.deepcopy(mods)
         out.append(("uninit-tail/%s" % mods_name(mods), spec))
+    for mods in ([], [ins("b0", 2, "mov")], [ins("b0", 2, "label")], [ins("b1", 0, "mov")], [dele("b0", 1, 2)], [rep("b0", 1, 2, "mov")],
+                 [ins("b0", 1, "mov")], [dele("b1", 0, 2)], [ins("b0", 2, "call:s2")], [dele("b3", 0, 2)]):
+        spec = resolved_icall_layout()
+        spec["mods"] = copy.deepcopy(mods)
+        out.append(("resolved-icall/%s" % mods_name(mods), spec))
     for mods in ([dele("c0", 0, 2, proxy=True)], [dele("c0", 0, 2)], [ins("c0", 1, "mov")], [dele("c0", 0, 1)],
                  [dele("c0", 0, 2, proxy=True), dele("b1", 0, 3)], [dele("q0", 0, 2)], [dele("q0", 0, 2, proxy=True)],
                  [dele("q0", 1, 2)], [ins("q0", 1, "byte")]):
